@@ -23,6 +23,7 @@ import json
 import logging
 
 from ..translate import c07 as tr
+from ..translate import c07ctx as cx
 
 PROPERTY = "C07"
 THEOREM_MODULE = "NemoVerif.Theorems.C07"
@@ -298,9 +299,27 @@ def gen_cases(rng, tier):
                 for g in all_trees(leaves, min(leaves, 3)):
                     al = sorted(set(atoms_of(g))) + [IRR]
                     cases.append({"kind": "e2e", "op": op, "g": g, "kinds": ["flow"] * 5, "minimal": False, "seqs": list(all_seqs(al, 3))})
+    # group statements in context: re-entered in loops, in sequence, nested in `when` bodies, behind a sub-flow
+    n_ctx, n_cseq = (150, 10) if quick else (2000, 24)
+    for i in range(n_ctx):
+        n_atoms = rng.randint(2, 4)
+        gf = lambda mx: g_formula(rng, n_atoms, rng.randint(1, mx), rng.randint(1, 3))  # noqa: E731
+        tmpl, prog, subs = cx.gen_prog(rng, gf, cx.TEMPLATES[i % len(cx.TEMPLATES)])
+        cases.append(ctx_case(tmpl, prog, subs, cx.gen_seqs(rng, prog, subs, n_cseq)))
+    if not quick:
+        # every tree with <= 2 leaves re-entered in a loop, all sequences of length <= 5 (match / await / when)
+        for kind in ("match", "await", "when"):
+            for g in list(all_trees(1, 1)) + list(all_trees(2, 2)):
+                al = sorted(set(atoms_of(g))) + [IRR]
+                body = [{"grp": "when", "cases": [{"g": g, "body": [{"send": "Hit"}]}], "kinds": "fffff"}] if kind == "when" else \
+                    [{"grp": kind, "cases": [{"g": g, "body": []}]}, {"send": "Hit"}]
+                cases.append(ctx_case("loop", [{"loop": body}], {}, list(cx.all_seqs(al, 5))))
+        for g in all_trees(3, 3):
+            al = sorted(set(atoms_of(g))) + [IRR]
+            cases.append(ctx_case("loop", [{"loop": [{"grp": "match", "cases": [{"g": g, "body": []}]}, {"send": "Hit"}]}], {}, list(cx.all_seqs(al, 4))))
     # spread the expensive end-to-end cases evenly over the list (balanced work for the worker pool)
-    heavy = [c for c in cases if c["kind"] == "e2e"]
-    light = [c for c in cases if c["kind"] != "e2e"]
+    heavy = [c for c in cases if c["kind"] in ("e2e", "ctx")]
+    light = [c for c in cases if c["kind"] not in ("e2e", "ctx")]
     if heavy:
         step = max(1, len(light) // len(heavy))
         out = []
@@ -310,6 +329,11 @@ def gen_cases(rng, tier):
         out.extend(light[len(heavy) * step:])
         cases = out
     return cases
+
+
+def ctx_case(tmpl, prog, subs, seqs):
+    gs = cx.groups_of(prog)
+    return {"kind": "ctx", "tmpl": tmpl, "prog": prog, "subs": subs, "g": cx.subst(gs[0][1], subs), "seqs": seqs}
 
 
 def escalate(rng, focus, tier):
@@ -517,6 +541,8 @@ def run_impl(case):
         return run_expand(case)
     if kind == "e2e":
         return run_e2e(case)
+    if kind == "ctx":
+        return run_ctx(case)
     raise ValueError(kind)
 
 
@@ -645,6 +671,42 @@ def run_e2e(case):
     return obs
 
 
+def run_ctx(case):
+    """a program with group statements in context (loops, sequences, nested when bodies, sub-flows): per event the markers"""
+    sm = _M["sm"]
+    obs = {}
+    try:
+        src = cx.program(case["prog"], case["subs"])
+        obs["src"] = src
+        with _quiet():
+            r = _M["parse"](filename="", content=src, include_source_mapping=False, version="2.x")
+            st = _M["State"](flow_states=[], flow_configs=_M["cfgs"](r["flows"]))
+            sm.initialize_state(st)
+            sm.run_to_completion(st, _M["InternalEvent"](name="StartFlow", arguments={"flow_id": "main"}))
+        obs["start_out"] = sorted({e.get("type") for e in st.outgoing_events if str(e.get("type")).startswith("Hit")})
+        obs["main_after_start"] = _main_status(st)
+    except Exception as e:  # noqa
+        obs["build_exc"] = f"{type(e).__name__}: {e}"[:300]
+        return obs
+    runs = []
+    import random as _random
+    for seq in case["seqs"]:
+        s = copy.deepcopy(st)
+        marks, exc = [], None
+        _CH["rng"] = _random.Random(json.dumps([case["g"], seq]))
+        _CH["log"] = []
+        try:
+            with _quiet():
+                for a in seq:
+                    sm.run_to_completion(s, {"type": ev_name(a)})
+                    marks.append([e.get("type") for e in s.outgoing_events if str(e.get("type")).startswith("Hit")])
+        except Exception as e:  # noqa
+            exc = f"{type(e).__name__}: {e}"[:200]
+        runs.append({"marks": marks, "exc": exc, "main": _main_status(s), "n_flow_states": len(s.flow_states)})
+    obs["runs"] = runs
+    return obs
+
+
 def _heads(st):
     """all heads of the main flow: [position relative to the first element of the group statement, status code]"""
     try:
@@ -693,6 +755,10 @@ def _has_unknown(j):
 
 def model_requests(case, obs):
     kind = case["kind"]
+    if kind == "ctx":
+        # one activation of each (substituted) group formula on every suffix of every sequence
+        sufs = [seq[i:] for seq in case["seqs"] for i in range(len(seq))]
+        return [{"m": "C07.markers", "g": g, "seqs": sufs} for g in ctx_formulas(case)]
     if "g_seen" not in obs or _has_unknown(obs["g_seen"]):
         return []
     if kind == "norm":
@@ -713,6 +779,34 @@ def model_requests(case, obs):
         # flow-level machine (child flows, Finished / Failed, failure path, clean-up of the losers)
         reqs.append({"m": "C07.flow", "g": obs["g_seen"], "seqs": case["seqs"]})
     return reqs
+
+
+def ctx_formulas(case):
+    out = []
+    for _, g in cx.groups_of(case["prog"]):
+        gs = cx.subst(g, case["subs"])
+        if gs not in out:
+            out.append(gs)
+    return out
+
+
+def ctx_check(case, obs, first_sat, who):
+    if "build_exc" in obs:
+        return "program with the group statements did not build/start: " + obs["build_exc"]
+    if obs.get("start_out"):
+        return f"markers {obs['start_out']} emitted before any event was received"
+    for seq, run in zip(case["seqs"], obs["runs"]):
+        if run["exc"]:
+            return f"sequence {seq}: run_to_completion raised {run['exc']}"
+        got = tuple(tuple(x) for x in run["marks"])
+        poss = cx.traces(case["prog"], case["subs"], seq, first_sat)
+        if got not in poss:
+            exp = sorted(poss)[0]
+            k = next((i for i, (a, b) in enumerate(zip(got, exp)) if a != b), 0)
+            return (f"{case['tmpl']} program: sequence {seq}: markers per event {[list(x) for x in got]} but {who} "
+                    f"{[list(x) for x in exp]}{' (or ' + str(len(poss) - 1) + ' other tie outcomes)' if len(poss) > 1 else ''}; first difference at index {k} "
+                    f"(every group statement completes at the first prefix, since IT became active, that satisfies its formula)")
+    return None
 
 
 def finish_view(seq):
@@ -736,6 +830,17 @@ def finish_view(seq):
 def compare(case, obs, mouts):
     m = mouts[0]
     kind = case["kind"]
+    if kind == "ctx":
+        table = {}
+        sufs = [(tuple(seq), i) for seq in case["seqs"] for i in range(len(seq))]
+        for g, mo in zip(ctx_formulas(case), mouts):
+            for (sq, i), mk in zip(sufs, mo["markers"]):
+                table[(json.dumps(g), sq, i)] = (i + mk.index(True)) if True in mk else None
+
+        def first_sat_model(g, seq, i):
+            return table.get((json.dumps(g), tuple(seq), i)) if i < len(seq) else None
+
+        return ctx_check(case, obs, first_sat_model, "the model (Dnf.markers per activation) gives")
     if kind == "norm":
         if "exc" in obs:
             return f"normalize_element_groups raised {obs['exc']}, model returned {json.dumps(m['norm'])[:120]}"
@@ -827,6 +932,8 @@ def _clauses_of_norm(n):
 def oracle(case, obs):
     kind = case["kind"]
     g = case["g"]
+    if kind == "ctx":
+        return ctx_check(case, obs, cx.first_sat_py, "the formula says")
     if kind == "expand" and case.get("stmt") == "when":
         if "exc" in obs:
             return None  # reported by the correspondence
@@ -925,6 +1032,9 @@ def signature(case, obs, msg):
 def nontrivial(case, obs):
     g = case["g"]
     rich = len(ops_of(g)) == 2 or len(atoms_of(g)) >= 3
+    if case["kind"] == "ctx":
+        # some sequence re-enters a group statement / reaches a second stage
+        return any(sum(len(x) for x in r["marks"]) >= 2 for r in obs.get("runs", []))
     if case["kind"] != "e2e":
         return rich
     return rich and any(1 in expected_hits(g, s)[1:] for s in case["seqs"])
@@ -942,6 +1052,12 @@ def tags(case, obs):
         t.append("stmt:" + case.get("stmt", "match"))
     if case["kind"] == "expand" and "prims" in obs:
         t.append(f"prims:{len(obs['prims']) // 10 * 10}+")
+    if case["kind"] == "ctx":
+        t.append("tmpl:" + case["tmpl"])
+        t.extend(sorted({"ctx-stmt:" + k for k, _ in cx.groups_of(case["prog"])}))
+        if "runs" in obs:
+            t.append(f"max-markers:{min(4, max([sum(len(x) for x in r['marks']) for r in obs['runs']] + [0]))}")
+            t.extend("main:" + m for m in sorted({r["main"] for r in obs["runs"]}))
     if case["kind"] == "e2e":
         t.append("op:" + case["op"])
         t.append(f"seqs:{len(case['seqs'])}")
@@ -979,6 +1095,17 @@ def _sub_formulas(g):
 
 
 def shrink(case):
+    if case["kind"] == "ctx":
+        n = len(case["seqs"])
+        if n > 1:
+            for s in case["seqs"]:
+                yield dict(case, seqs=[s])
+            return
+        s = case["seqs"][0]
+        for i in range(len(s)):
+            if len(s) > 1:
+                yield dict(case, seqs=[s[:i] + s[i + 1:]])
+        return
     if case.get("stmt") == "when":
         cs = case["cases"]
         for i in range(len(cs)):
